@@ -914,8 +914,12 @@ def _audit_cases(quick, rng):
             kinds = ('array', 'gen') if f2.get('intwave') else ('array', 'gen', 'cos2')
             c, st, n = _opt_case(rng, quick, pol, fs, same=bool(f2.pop('esnone', False)), kinds=kinds)
             if f2.pop('dlist', False):
+                # one delay per presentation: the keep-completed policies present EVERY stimulus until the one with
+                # the most trials is done, so the finite lists are as long as the largest trial count (+1 look-ahead);
+                # a list that runs out is a caller error (StopIteration), not an input of the property
+                most = max(y['trials'] for y in st)
                 for x in st:
-                    x['delays'] = [[x['delay'] + rng.choice([0, 1, 3]), rng.choice(OFFS)] for _ in range(x['trials'] + 1)]
+                    x['delays'] = [[x['delay'] + rng.choice([0, 1, 3]), rng.choice(OFFS)] for _ in range(most + 1)]
                     if x['delays'][0][0] == 0:
                         x['delays'][0][1] = abs(x['delays'][0][1])
             if f2.pop('nodelay', False):
